@@ -181,10 +181,17 @@ func harnessPanic(stack string) bool {
 			seen = true
 			continue
 		}
-		if !seen || strings.HasPrefix(l, "\t") || strings.HasPrefix(l, "runtime.") || l == "" {
+		if !seen || strings.HasPrefix(l, "\t") || l == "" {
 			continue
 		}
-		return strings.HasPrefix(l, "verif/")
+		// walk down from the panic: the first frame that is either harness or
+		// library code decides (standard library and runtime frames are skipped)
+		if strings.HasPrefix(l, "verif/") {
+			return true
+		}
+		if strings.HasPrefix(l, "github.com/gebn/bmc") {
+			return false
+		}
 	}
 	return false
 }
